@@ -151,6 +151,9 @@ def eval_vals(bp):
     return ev
 
 
+_REUSED = bytearray()
+
+
 def check_decode(bp, b: bytes):
     """Decoder contract on arbitrary bytes. Returns (failures[(clause, detail)], class label)."""
     out = []
@@ -161,11 +164,16 @@ def check_decode(bp, b: bytes):
         want, kind = None, "eof"
     except wire.WireError:
         want, kind = None, "toolong"
-    for fn in ("decode_varint", "load_varint"):
+    for fn in ("decode_varint", "decode_varint_reused_buffer", "load_varint"):
         try:
             if fn == "decode_varint":
                 v, pos = bp.decode_varint(b, 0)
                 raw = b[:pos]
+            elif fn == "decode_varint_reused_buffer":
+                # one mutable buffer refilled in place for every input (what a receive loop does): same contract
+                _REUSED[:] = b
+                v, pos = bp.decode_varint(_REUSED, 0)
+                raw = bytes(_REUSED[:pos])
             else:
                 s = BytesIO(b)
                 v, raw = bp.load_varint(s)
